@@ -30,6 +30,7 @@ type mutantEdit struct {
 	File string `json:"file"`
 	Old  string `json:"old"`
 	New  string `json:"new"`
+	Line int    `json:"line,omitempty"` // 1-based line where Old starts once the earlier edits are applied (disambiguates repeated text)
 }
 
 type mutant struct {
@@ -440,7 +441,7 @@ func runMutantChild(def *propDef, mf, repo, goarch string) int {
 	}
 	edits := m.Edits
 	if m.File != "" {
-		edits = append([]mutantEdit{{m.File, m.Old, m.New}}, edits...)
+		edits = append([]mutantEdit{{m.File, m.Old, m.New, 0}}, edits...)
 	}
 	overlay := map[string][]byte{}
 	for _, e := range edits {
@@ -453,10 +454,32 @@ func runMutantChild(def *propDef, mf, repo, goarch string) int {
 			}
 			cur = b
 		}
-		if strings.Count(string(cur), e.Old) != 1 {
-			return emit("skipped", fmt.Sprintf("hunk does not apply to %s (%d occurrences of the old text)", e.File, strings.Count(string(cur), e.Old)), nil)
+		n := strings.Count(string(cur), e.Old)
+		if n == 0 || (n > 1 && e.Line == 0) {
+			return emit("skipped", fmt.Sprintf("hunk does not apply to %s (%d occurrences of the old text)", e.File, n), nil)
 		}
-		overlay[abs] = []byte(strings.Replace(string(cur), e.Old, e.New, 1))
+		at := strings.Index(string(cur), e.Old)
+		if n > 1 {
+			// the occurrence starting nearest to the recorded line
+			best, bestD := -1, 1<<30
+			for off := 0; ; {
+				i := strings.Index(string(cur)[off:], e.Old)
+				if i < 0 {
+					break
+				}
+				ln := 1 + strings.Count(string(cur)[:off+i], "\n")
+				d := ln - e.Line
+				if d < 0 {
+					d = -d
+				}
+				if d < bestD {
+					best, bestD = off+i, d
+				}
+				off += i + 1
+			}
+			at = best
+		}
+		overlay[abs] = []byte(string(cur)[:at] + e.New + string(cur)[at+len(e.Old):])
 	}
 	// baseline verdicts on the unmutated tree, to report only what the mutant adds
 	base, err := Load(repo, goarch, nil)
